@@ -65,7 +65,7 @@ def case_defs(c):
     return "\n".join(out) + "\n"
 
 
-def run_harness(c, binary, seed, ncases, nops, extra=(), batch=5, workers=6):
+def run_harness(c, binary, seed, ncases, nops, extra=(), batch=5, workers=6, base=0):
     """Runs the harness in several processes (a kernel panic kills only its own batch).
     Returns (cases renumbered globally, summed stats, crash list)."""
     from concurrent.futures import ThreadPoolExecutor
@@ -84,7 +84,7 @@ def run_harness(c, binary, seed, ncases, nops, extra=(), batch=5, workers=6):
                 stats[k] = stats.get(k, 0) + v
             for c_ in cs:
                 old = c_["idx"]
-                c_["idx"] = len(cases)
+                c_["idx"] = base + len(cases)
                 c_["batch_seed"] = sd
                 c_["batch_idx"] = old
                 # interned names carry the per-process case index: make them globally unique
@@ -96,7 +96,7 @@ def run_harness(c, binary, seed, ncases, nops, extra=(), batch=5, workers=6):
                 c_["init"] = (c_["init"][0], sub(c_["init"][1])) if c_["init"] else None
                 cases.append(c_)
             if rc != 0 or any(c_["panic"] for c_ in cs):
-                crashes.append({"batch_seed": sd, "rc": rc, "stderr": err[-1500:],
+                crashes.append({"batch_seed": sd, "rc": rc, "stderr": err[-1500:], "args": " ".join(extra),
                                 "case": cs[-1]["idx"] if cs else None})
     return cases, stats, crashes
 
@@ -295,7 +295,10 @@ def mirror_check(c, prop_file, monitors, what, quick=(40, 30), thorough=(600, 40
                 mon_bad.append((k, m, r["mon"][m]))
         if r["corr"] is not None:
             corr_bad.append((k, r["corr"]))
-    for k, m, val in mon_bad[:3]:
+    per_mon = {}
+    for x in mon_bad:
+        per_mon.setdefault(x[1], []).append(x)
+    for k, m, val in [x for m_ in monitors for x in per_mon.get(m_, [])[:2]]:
         mm = re.search(r"Some\s+(\d+)", val)
         step = int(mm.group(1)) if mm else None
         upto = (step + 1) if step is not None else len(k["steps"])
